@@ -20,12 +20,15 @@ CONFIGS = {
     "P": dict(Keys={1, 2}, Nodes={1, 2}, Sources={0, 1}, F=2, Times={0, 3, 4}, Counters={0}, MaxOps=4),
     # the same universe as A with re-delivery of operations (duplication), at most 4 deliveries
     "AD": dict(Keys={1, 2}, Nodes={1, 2}, Sources={0, 1}, F=2, Times={0, 1, 2}, Counters={0}, MaxOps=4, AllowDup=True),
+    # three origin nodes (quick), stamps that differ in counter only (quick)
+    "N3": dict(Keys={1, 2}, Nodes={1, 2, 3}, Sources={0, 1}, F=2, Times={0, 1, 2}, Counters={0}, MaxOps=3),
+    "D3": dict(Keys={1, 2}, Nodes={1, 2}, Sources={0, 1}, F=2, Times={0, 3}, Counters={0, 1}, MaxOps=3),
     # thorough: three keys / three nodes
     "E": dict(Keys={1, 2, 3}, Nodes={1, 2}, Sources={0, 1}, F=2, Times={0, 1, 2}, Counters={0}, MaxOps=5),
     "G": dict(Keys={1, 2}, Nodes={1, 2, 3}, Sources={0, 1}, F=2, Times={0, 1, 2, 3}, Counters={0}, MaxOps=4),
     "H": dict(Keys={1, 2}, Nodes={1, 2}, Sources={0, 1}, F=3, Times={0, 1, 2, 3, 4}, Counters={0}, MaxOps=4),
 }
-TIERS = {"quick": ["A", "AD", "B", "C", "P"], "thorough": ["A", "AD", "B", "C", "P", "D", "E", "G", "H"]}
+TIERS = {"quick": ["A", "AD", "B", "C", "P", "N3", "D3"], "thorough": ["A", "AD", "B", "C", "P", "N3", "D3", "D", "E", "G", "H"]}
 
 INVARIANTS = ["C04_LWW", "C08_StillRefused", "WellFormedInv"]
 PROPERTIES = ["C04_Return", "C08_PurgeInvisible"]
